@@ -425,6 +425,11 @@ func registerHarness(e *Engine) {
 		c.St.Ghost["sock:"+c.constStr(0)] = Tuple{c.Args[1], c.Args[2], c.Args[3]}
 		return c.Return(nil)
 	}
+	// vfSockHandler(addr, f): requests to a listener bound at addr (net.Listen model) are answered by f(method, url)
+	e.Intr["harness.vfSockHandler"] = func(c *Call) []*State {
+		c.St.Ghost["sockhandler:"+c.constStr(0)] = c.Args[1]
+		return c.Return(nil)
+	}
 	// vfSockStale(addr): a socket file left behind by a killed process (nobody listens)
 	e.Intr["harness.vfSockStale"] = func(c *Call) []*State {
 		c.St.Ghost["sock:"+c.constStr(0)] = Tuple{False, False, StrC(""), True}
